@@ -237,6 +237,27 @@ def has_call(t, q):
     return False
 
 
+def var_alternatives(T, b, t, limit=6):
+    """the terms a variable that is assigned on several paths (`let x = if c { A } else { B }`) can stand for; [] for none"""
+    out = []
+    for n in walk(t):
+        if n[0] != 'var':
+            continue
+        for l, lc in enumerate(b.locals):
+            if lc.get('name') == n[-1] and 1 < len(b.defs().get(l, [])) <= limit:
+                for d in b.defs()[l]:
+                    if d[0] == 'assign':
+                        out.append(simplify(T.of_rvalue(b, d[1]['rv'], 0)))
+                    elif d[0] == 'call':
+                        out.append(simplify(T.of_call(b, d[1], 0)))
+    return out
+
+
+def has_call_deep(T, b, t, q):
+    """has_call, looking one level into variables assigned on several paths"""
+    return has_call(t, q) or any(has_call(a, q) for a in var_alternatives(T, b, t))
+
+
 def has_field(t, name):
     for n in walk(t):
         if n[0] == 'field' and n[2] == name:
